@@ -14,10 +14,10 @@ from harness.vclock import run_virtual, settle
 ID = "C10"
 COQ_DIRS = ["C10"]
 PROPERTY_FILE = "C10/Property.v"
-RUN_IMPORTS = "From TV Require Import C10.Model C10.Run C10.RunClient."
-RUN_FN = "run_case2"
-CHECK_FN = "check_case2"
-INPUT_TYPE = "input2"
+RUN_IMPORTS = "From TV Require Import C10.Model C10.Run C10.RunClient C10.RunP4."
+RUN_FN = "run_case3"
+CHECK_FN = "check_case3"
+INPUT_TYPE = "input3"
 EXHAUSTIVE = {"quick": False, "thorough": True}
 
 FAMS = {4: "AF4", 6: "AF6", 9: "AF9"}
@@ -31,6 +31,11 @@ class FakeStream:
 
     def close(self):
         self.close_calls += 1
+
+    def start_tls(self, server_side, ssl_options=None, server_hostname=None):
+        from tornado.concurrent import Future
+        self.tls = Future()
+        return self.tls
 
 
 class AttemptError(IOError):
@@ -85,6 +90,11 @@ def run_impl(case):
     t_after = {"P": 0.4, "C": (0.2 if ct_first else 0.7)}
     loop_errors = []
     socket_leaks = []
+    fake_socks = []
+    patched = {}
+
+    class TlsFail(Exception):
+        pass
 
     async def scenario(loop):
         loop.set_exception_handler(lambda l, ctx: loop_errors.append(ctx))
@@ -187,12 +197,70 @@ def run_impl(case):
                     return f
 
             tcpclient._Connector = Rec
-            tcpclient.TCPClient._create_stream = (
-                lambda self, max_buffer_size, af, addr, source_ip=None, source_port=None: connect(af, addr))
+            src = case.get("src")
+            if src is None:
+                tcpclient.TCPClient._create_stream = (
+                    lambda self, max_buffer_size, af, addr, source_ip=None, source_port=None: connect(af, addr))
+            else:
+                # the REAL _create_stream runs; only socket.socket and IOStream are fakes
+                import socket as _socket
+                real_af = {4: _socket.AF_INET, 6: _socket.AF_INET6}
+                addrinfo[:] = [(real_af[f], ("host", i)) for i, (f, _) in enumerate(addrs)]
+                cur = {}
+
+                class FakeSock:
+                    def __init__(self, af, *a):
+                        self.fam = 6 if af == _socket.AF_INET6 else 4
+                        self.idx, self.closed, self.must_close = cur["idx"], False, False
+                        fake_socks.append(self)
+
+                    def bind(self, sa):
+                        if (6 if ":" in sa[0] else 4) != self.fam:
+                            self.must_close = True
+                            raise AttemptError(self.idx)
+
+                    def close(self):
+                        self.closed = True
+
+                def fake_iostream(sock, max_buffer_size=None):
+                    idx = sock.idx
+                    if addrs[idx][1] == "raise":
+                        sock.must_close = True
+                        raise AttemptError(idx)
+                    st = FakeStream(idx)
+                    f = Future()
+                    streams[idx], futs[idx] = st, f
+                    if addrs[idx][1] is True:
+                        f.set_result(st)
+                    elif addrs[idx][1] is False:
+                        f.set_exception(AttemptError(idx))
+                    st.connect = lambda addr: f
+                    return st
+
+                def wrapped_create(self, max_buffer_size, af, addr, source_ip=None, source_port=None):
+                    idx = addr[1]
+                    started.append(idx)
+                    if idx in seen:
+                        return FakeStream(idx), Future()
+                    seen.add(idx)
+                    cur["idx"] = idx
+                    return orig_create(self, max_buffer_size, af, addr, source_ip=source_ip, source_port=source_port)
+
+                tcpclient.TCPClient._create_stream = wrapped_create
+                tcpclient.IOStream = fake_iostream
+                _socket.socket = FakeSock
+                patched["socket"] = True
             tv = {"none": None, "number": ct_deadline, "timedelta": datetime.timedelta(seconds=ct_deadline),
                   "bad": "soon"}[case["tk"]]
             client = tcpclient.TCPClient(resolver=FakeResolver())
-            fut = asyncio.ensure_future(client.connect("host", 80, timeout=tv))
+            kw = {}
+            if src == "port":
+                kw["source_port"] = 4242
+            elif src is not None:
+                kw["source_ip"] = "10.0.0.1" if src[1] == 4 else "fe80::1"
+            if case.get("tls"):
+                kw["ssl_options"] = {}
+            task = fut = asyncio.ensure_future(client.connect("host", 80, timeout=tv, **kw))
             await settle(8)
             if fut.done() and not fut.cancelled() and fut.exception() is not None and "conn" not in holder:
                 exc = fut.exception()
@@ -204,6 +272,8 @@ def run_impl(case):
                     return G.Tag("ResolveError")
             conn = holder.get("conn")
             handles = holder.get("handles", (None, None))
+            if case.get("tls") and conn is not None:
+                fut = conn.future            # per-event snapshots show the connector; the caller's outcome comes last
 
         def armed(h):
             return bool(h is not None and not h.cancelled() and getattr(h, "_scheduled", False))
@@ -215,7 +285,7 @@ def run_impl(case):
                 return G.Tag("Cancelled")
             exc = fut.exception()
             if exc is None:
-                if via_client:
+                if via_client and fut is task:
                     stream = fut.result()
                     idx = getattr(stream, "idx", None)
                     if idx is None or streams.get(idx) is not stream:
@@ -226,6 +296,8 @@ def run_impl(case):
                 if streams.get(idx) is not stream or addrinfo[idx] != (af, addr):
                     return G.Tag("WrongResult")
                 return [G.Tag("Ok"), idx]
+            if isinstance(exc, TlsFail):
+                return G.Tag("TlsError")
             if isinstance(exc, (AttemptError, _Idx)):
                 return [G.Tag("Err"), exc.idx]
             if isinstance(exc, TTimeout):
@@ -260,9 +332,31 @@ def run_impl(case):
                     await asyncio.sleep(dt)
             await settle(nsettle)
             out.append(snapshot())
-        if via_client and not fut.done():
-            fut.cancel()
+        if via_client and case.get("tls") and conn is not None:
+            # TLS phase: the handshake outcome arrives, then the deadline (if any) elapses
+            win = None
+            if fut.done() and fut.exception() is None:
+                win = fut.result()[2]
+                tf = getattr(win, "tls", None)
+                if tf is not None and not tf.done() and not task.done():   # the outcome arrives only while the caller still waits
+                    if case["tls"] == "ok":
+                        tf.set_result(win)
+                    elif case["tls"] == "fail":
+                        win.close()
+                        tf.set_exception(TlsFail())
+                await settle(8)
+                dt = t0 + 1.0 - loop.time()
+                if dt > 0:
+                    await asyncio.sleep(dt)
+                await settle(8)
+            fut = task
+            out = [out, [fut_obs(), bool(win is not None and win.close_calls == 0)]]
+        if via_client and not task.done():
+            task.cancel()
             await settle(3)
+        for sk in fake_socks:
+            if sk.must_close and not sk.closed:
+                socket_leaks.append(sk.idx)
         # retrieve exceptions so that nothing is logged at GC time
         for f in list(futs.values()) + [fut]:
             if f.done() and not f.cancelled():
@@ -270,11 +364,15 @@ def run_impl(case):
         return out
 
     logging.getLogger("asyncio").setLevel(logging.CRITICAL)
+    logging.getLogger("tornado.application").setLevel(logging.CRITICAL)
+    import socket as _sk
     orig_connector, orig_create = tcpclient._Connector, tcpclient.TCPClient._create_stream
+    orig_ios, orig_sock = tcpclient.IOStream, _sk.socket
     try:
         res = run_virtual(scenario)
     finally:
         tcpclient._Connector, tcpclient.TCPClient._create_stream = orig_connector, orig_create
+        tcpclient.IOStream, _sk.socket = orig_ios, orig_sock
     if socket_leaks:
         return [G.Tag("SocketLeakInCreateStream"), socket_leaks, res]
     if loop_errors:
@@ -297,7 +395,10 @@ def coq_input(case):
                                      {"now": "RNow", "never": "RNever", "fails": "RFails"}[case["rk"]])
     else:
         entry = "Direct"
-    return "(%s, %s)" % (entry, inner)
+    sr = case.get("src")
+    gsrc = "SrcNone" if sr is None else ("SrcPort" if sr == "port" else "(SrcIp %s)" % G.gnat(sr[1]))
+    gtls = {None: "NoTls", "ok": "TlsOk", "fail": "TlsFail", "never": "TlsNever"}[case.get("tls")]
+    return "((%s, %s), (%s, %s))" % (gsrc, gtls, entry, inner)
 
 
 def mk(addrs, ct, events):
@@ -433,6 +534,22 @@ def as_client(case, tk, rk="now"):
 TKS = ["number", "timedelta", "none"]
 
 
+def with_p4(case, src=None, tls=None):
+    """through TCPClient.connect with source_ip / source_port (real _create_stream) and / or ssl_options"""
+    c = dict(case, src=src, tls=tls)
+    if src is not None:                     # real address families only; OSError-type raises only
+        c["addrs"] = [[6 if f == 9 else f, x] for f, x in c["addrs"]]
+        c.pop("exc", None)
+    return c
+
+
+def eff_addrs(case):
+    sr = case.get("src")
+    if isinstance(sr, (list, tuple)):
+        return [[f, ("raise" if f != sr[1] else x)] for f, x in case["addrs"]]
+    return case["addrs"]
+
+
 def corpus_cases():
     P, C = ["P"], ["C"]
     D = lambda i, ok: ["D", i, ok]
@@ -455,6 +572,20 @@ def corpus_cases():
         as_client(mk([], True, []), "number"),
     ]
     out += [as_client(c, TKS[k % 3]) for k, c in enumerate(base) if not c.get("real") and c["addrs"]]
+    # phase 4: source binding (bind failure = raising attempt, its socket closed) and the TLS hand-off
+    four_c = as_client(mk(four, True, [P, D(0, False), D(2, True)]), "number")
+    out += [
+        with_p4(four_c, src=["ip", 4]), with_p4(four_c, src=["ip", 6]), with_p4(four_c, src="port"),
+        with_p4(as_client(mk([(6, None), (4, None)], False, [D(0, True)]), "none"), src=["ip", 4]),
+        with_p4(as_client(mk([(4, None), (4, "raise"), (6, True)], True, [D(0, False)]), "timedelta"), src=["ip", 6]),
+        with_p4(as_client(mk([(4, True)], True, []), "number"), tls="never"),        # the recorded TLS-timeout witness
+        with_p4(as_client(mk([(4, True)], False, []), "none"), tls="never"),
+        with_p4(as_client(mk(four, True, [D(0, True)]), "number"), tls="ok"),
+        with_p4(as_client(mk(four, True, [D(0, True)]), "timedelta"), tls="fail"),
+        with_p4(as_client(mk(four, True, [D(0, True), C]), "number"), tls="ok"),     # deadline elapses during the handshake
+        with_p4(as_client(mk(four, True, [C, D(0, True)]), "number"), tls="ok"),     # connector timed out before
+        with_p4(as_client(mk(four, False, [D(0, False), D(1, False)]), "none"), tls="ok", src=["ip", 4]),
+    ]
     return out
 
 
@@ -466,6 +597,14 @@ def gen_cases(rng, tier):
     for k, c in enumerate(direct):
         if k % step == off:
             out.append(as_client(c, TKS[(k // step) % 3]))
+    # phase 4 variants of client schedules
+    cl = [c for c in out if c.get("via") == "client" and c["rk"] == "now" and c["tk"] != "bad" and c["addrs"]]
+    for k, c in enumerate(cl):
+        if k % 2 == 0:
+            out.append(with_p4(c, src=[["ip", 4], ["ip", 6], "port"][(k // 2) % 3],
+                               tls=[None, None, "ok", "never", "fail"][(k // 2) % 5]))
+        elif k % 4 == 1:
+            out.append(with_p4(c, tls=["ok", "never", "fail"][(k // 4) % 3]))
     # the resolver never answers / fails, bad timeout types
     for k in range(40 if tier == "quick" else 300):
         ev = [rng.choice([["P"], ["C"], ["C"], ["D", 0, rng.random() < 0.5]]) for _ in range(rng.randrange(5))]
@@ -478,6 +617,15 @@ def gen_cases(rng, tier):
 
 
 def py_check(case, o):
+    if case.get("tls") and isinstance(o, list) and len(o) == 2 and isinstance(o[0], list) and o[0] and isinstance(o[0][0], list):
+        r, open_ = o[1]
+        if isinstance(r, list) and r[0] == G.Tag("Ok") and not (case["tls"] == "ok" and open_):
+            return False
+        if r == G.Tag("TlsError") and open_:
+            return False
+        o = o[0]
+    if case.get("src") is not None:
+        case = dict(case, addrs=eff_addrs(case))
     if case.get("via") == "client" and (case["rk"] != "now" or case["tk"] == "bad"):
         if case["tk"] == "bad":
             return o == G.Tag("TypeError")
@@ -540,6 +688,7 @@ def nontrivial(case, o):
 
 
 def classify(case, o):
+    yield "p4=src:%s/tls:%s" % (("ip" if isinstance(case.get("src"), (list, tuple)) else case.get("src")), case.get("tls"))
     yield "entry=" + ("TCPClient.connect/%s/%s" % (case["tk"], case["rk"]) if case.get("via") == "client" else "_Connector")
     yield "n=%d" % len(case["addrs"])
     yield "families=%d" % len(set(f for f, _ in case["addrs"]))
